@@ -152,10 +152,17 @@ static int64_t schedule_abs(struct timer_mgr *timer, double abs_mtimer)
     return timer_id;
 }
 
+/* more than 30000 years */
+#define MAX_RELATIVE_MTIMER (1e12)
+
 int64_t timer_mgr_schedule(struct timer_mgr *timer, double relative_mtimer)
 {
     if (relative_mtimer < 0)
 	relative_mtimer = 0;
+
+    /* the expiry time must be representable in a struct timespec */
+    if (relative_mtimer > MAX_RELATIVE_MTIMER)
+	relative_mtimer = MAX_RELATIVE_MTIMER;
 
     int64_t timer_id = schedule_abs(timer, ut_ftime() + relative_mtimer);
 
